@@ -28,6 +28,17 @@ type ConfigReceiver struct {
 	ChainKey []byte
 }
 
+// Validate checks that this configuration can take part in a protocol run.
+func (c *ConfigReceiver) Validate() error {
+	if c == nil || c.Setup == nil || c.SecretShare == nil || c.Public == nil {
+		return errors.New("doerner: config is missing fields")
+	}
+	if c.SecretShare.IsZero() || c.Public.IsIdentity() {
+		return errors.New("doerner: config has a zero share or an identity public key")
+	}
+	return nil
+}
+
 // Group returns the elliptic curve group associate with this config.
 func (c *ConfigReceiver) Group() curve.Curve {
 	return c.Public.Curve()
@@ -84,6 +95,17 @@ type ConfigSender struct {
 	Public curve.Point
 	// ChainKey is the shared chain key.
 	ChainKey []byte
+}
+
+// Validate checks that this configuration can take part in a protocol run.
+func (c *ConfigSender) Validate() error {
+	if c == nil || c.Setup == nil || c.SecretShare == nil || c.Public == nil {
+		return errors.New("doerner: config is missing fields")
+	}
+	if c.SecretShare.IsZero() || c.Public.IsIdentity() {
+		return errors.New("doerner: config has a zero share or an identity public key")
+	}
+	return nil
 }
 
 // Group returns the elliptic curve group associate with this config.
